@@ -45,6 +45,8 @@ impl RtStream {
         // (5) size / iteration / is_empty agree
         if self.table.size() != flat.len() || iter.len() != flat.len() || self.table.is_empty() != flat.is_empty() {
             out.violation("C12", "size-iteration", format!("size()={} nodes().count()={} entries={} is_empty()={}", self.table.size(), iter.len(), flat.len(), self.table.is_empty()));
+        } else if self.table.is_empty() != (self.table.size() == 0) {
+            out.violation("C12", "is-empty-disagrees", format!("size()={} nodes().count()={} but is_empty()={}", self.table.size(), iter.len(), self.table.is_empty()));
         }
         let iter_ids: Vec<Id> = iter.iter().map(|n| *n.id()).collect();
         let flat_ids: Vec<Id> = flat.iter().map(|n| *n.id()).collect();
@@ -321,6 +323,14 @@ pub fn run(out: &mut Out, seed: u64, thorough: bool, replay: Option<&str>) {
         out.run(&mut s, "nodes".into());
         out.run(&mut s, "buckets".into());
         out.run(&mut s, format!("closest {}", hex(&own)));
+        // drain the table: size, iteration and is_empty must agree on the empty table again
+        if c % 2 == 0 {
+            for (idh, _) in uni.clone() {
+                out.run(&mut s, format!("remove {idh}"));
+            }
+            out.run(&mut s, "size".into());
+            out.run(&mut s, "nodes".into());
+        }
         out.mark_distinct(fnv(&own));
         if c == 0 {
             out.sample(format!("case rtable {}: add/remove/rekey/adv/closest x{}", hex(&own), steps));
